@@ -38,7 +38,8 @@ def rand_settings(rng, version, tclk_mode):
     stack_specific = {}
     if rng.random() < 0.5:
         stack_specific = {"ezsp": {"hashed_tclk": bytes(rng.getrandbits(8) for _ in range(16)).hex()}}
-    nwk_addresses = {c: zt.NWK(rng.randint(1, 0xFFF0)) for c in childs if rng.random() < 0.85}
+    # (0x0000 is a legitimate 16-bit value in a backup: a child entry is a child entry whatever its address)
+    nwk_addresses = {c: zt.NWK(rng.choice([0x0000, 0x0001, 0xFFF7, rng.randint(1, 0xFFF0), rng.randint(1, 0xFFF0)])) for c in childs if rng.random() < 0.85}
     ni = zigpy.state.NetworkInfo(
         extended_pan_id=zt.ExtendedPanId.deserialize(bytes(rng.getrandbits(8) for _ in range(8)))[0],
         pan_id=zt.PanId(rng.randint(1, 0xFFFE)), nwk_update_id=rng.getrandbits(8), nwk_manager_id=zt.NWK(0), channel=chan, channel_mask=mask,
